@@ -36,7 +36,9 @@ Definition seen_types (S : isch) (view : option tmap) : list itype :=
   | None => is_types S
   | Some v => flat_map (fun t => match lookup (it_name t) v with
                                  | Some fs => [ {| it_kind := it_kind t; it_name := it_name t; it_desc := it_desc t;
-                                                   it_fields := filter (fun f => mem (if_name f) fs) (it_fields t);
+                                                   (* in the VIEW's order: addFields appends in the order the paths were walked *)
+                                                   it_fields := flat_map (fun n => match find (fun f => String.eqb (if_name f) n) (it_fields t) with
+                                                                                   | Some f => [f] | None => [] end) fs;
                                                    it_ifaces := it_ifaces t; it_possible := it_possible t; it_enum := it_enum t |} ]
                                  | None => [] end) (is_types S)
   end.
